@@ -64,13 +64,14 @@ structure Err where
 
 /-! ### `_is_valid_name` / `VALID_NAME_RE` (character classes extracted from the compiled pattern) -/
 
-/-- `VALID_NAME_RE.match` on code points. Python's `$` also matches before one trailing newline. -/
+/-- `VALID_NAME_RE.match` on code points. Python's `$` also matches before one trailing newline
+    (`nameDollarQuirk`, extracted: false once the pattern ends with `\\Z`). -/
 def matchName (cs : List Nat) : Bool :=
   !(nameForbiddenPrefix.isPrefixOf cs) &&
   match cs with
   | [] => false
   | c :: rest =>
-    nameStart c && (if rest.getLast? == some 10 then rest.dropLast else rest).all nameCont
+    nameStart c && (if nameDollarQuirk && rest.getLast? == some 10 then rest.dropLast else rest).all nameCont
 
 def isValidName (n : String) : Bool := matchName (n.toList.map Char.toNat)
 
